@@ -15,11 +15,12 @@ from ..digest import obj_digest
 TITLE = 'hit counts, percentages, oktas'
 EXPLORER = 'E1'
 CLAUSES = ['C03.n_hits', 'C03.perc', 'C03.okta_rule', 'C03.okta_monotone', 'C03.code_prefix', 'C03.total',
-           'C03.okta0_edge', 'C03.okta8_edge', 'C03.tie', 'C03.multi_hit_once']
+           'C03.okta0_edge', 'C03.okta8_edge', 'C03.tie', 'C03.multi_hit_once', 'C03.merged_group', 'C03.regrouped']
 RULE = ('CT: all (count,total) pairs 0<=count<=total<=N x MAX_HITS_OKTA0 {0,1,3} x MAX_HOLES_OKTA8 {0,1,2}, one '
         'case per total (and per number of ceilometers); M3: all 2x2 tables over an 8-entry cell menu (same-deck '
         'double hits, cross-deck double hits, absent cells) x coincident/offset stamps x okta0 {0,1}. Every row of '
-        'the three tables of every run is judged. distinct_nontrivial = distinct (n_hits,total,okta,params) tuples seen')
+        'the three tables of every run is judged; family B: deck scenes in which slices are merged into groups (two decks 200..460 ft apart, '
+        'chains, two ceilometers, thick deck / pause / thin deck) so that the three tables hold DIFFERENT sets. distinct_nontrivial = distinct (n_hits,total,okta,params) tuples seen')
 ASSUMPTIONS = ['x.5-okta ties accept both neighbouring oktas', 'totals beyond the bound are not decided']
 
 BUFS = [(o0, o8) for o0 in (0, 1, 3) for o8 in (0, 1, 2)]
@@ -53,11 +54,19 @@ def cases(tier):
             if all(M3_MENU[c] is None for c in cells) or cells[T:] < cells[:T]:
                 continue
             out.append({'fam': 'M3', 'shape': [C, T], 'cells': list(cells)})
+    # sets that differ between the three levels: slices merged into one group, groups re-clustered in time, groups split into layers
+    from . import _deckfam
+    bsc = (_deckfam.two_deck_scenes('quick', rich=False)[::(3 if tier == 'quick' else 1)] + _deckfam.chain_scenes('quick')[::2]
+           + _deckfam.two_ceilo_scenes('quick')[::3] + _deckfam.split_scenes('quick')[::3] + _deckfam.streak_scenes()[:2])
+    for args in itertools.product((36, 40), (13,), (8, 14), (1250., 1300.), (11, 7)):
+        bsc.append(('regroup:' + ':'.join('%g' % x for x in args), {'gen': 'regroup', 'args': list(args)}))
+    for name, spec in bsc:
+        out.append({'fam': 'B', 'name': name, 'scene': spec})
     return out
 
 
 def weight(case):
-    return (case['total'] + 1) * 9 if case['fam'] == 'CT' else 7
+    return (case['total'] + 1) * 9 if case['fam'] == 'CT' else 7 if case['fam'] == 'M3' else 12
 
 
 def judge(res, r, prms, sub, monotone_map=None):
@@ -141,6 +150,21 @@ def run_case(case):
                                               'detail': {'total': key[0], 'MAX_HITS_OKTA0': key[1], 'MAX_HOLES_OKTA8': key[2],
                                                          'count': [a, b], 'okta': [m[a], m[b]]}, 'sub': case})
         res['sample'] = {'fam': 'CT', 'total': total, 'n_ceilos': k, 'runs': res['n']}
+    elif case['fam'] == 'B':
+        rows = scenes.build(case['scene'])
+        for prms in ({}, {'MIN_SEP_VALS': [500, 1000]}, {'MAX_HITS_OKTA0': 0, 'MAX_HOLES_OKTA8': 2, 'MIN_SEP_VALS': [100, 1000]}):
+            r = pipeline.run(rows, prms, msgs=False)
+            res['n'] += 1
+            if not r.ok:
+                res['crashed'] += 1
+                continue
+            if r.chunk.n_slices > r.chunk.n_groups:
+                res['clauses']['C03.merged_group'] = res['clauses'].get('C03.merged_group', 0) + 1
+            st, gt = pipeline.table_rows(r.chunk.slices), pipeline.table_rows(r.chunk.groups)
+            if [x['cluster_id'] for x in st] == [x['cluster_id'] for x in gt] and [x['n_hits'] for x in st] != [x['n_hits'] for x in gt]:
+                res['clauses']['C03.regrouped'] = res['clauses'].get('C03.regrouped', 0) + 1
+            judge(res, r, prms, case)
+        res['sample'] = {'fam': 'B', 'scene': case['name']}
     else:
         C, T = case['shape']
         # stamp layouts: coincident stamps, offset stamps, and POSITIVE stamps with numeric-looking names chosen such that the plain
